@@ -46,6 +46,17 @@ type c13Model struct {
 	req   []c13Req
 	toReq []bitcoin.Hash32
 	last  bitcoin.Hash32
+	// processing: the block processor holds a popped block whose processing has not finished
+	processing bool
+}
+
+// outstanding is the number of requested-but-unprocessed blocks: the window plus the block the
+// processor holds.
+func (m *c13Model) outstanding() int {
+	if m.processing {
+		return len(m.req) + 1
+	}
+	return len(m.req)
 }
 
 func (m *c13Model) pending() int {
@@ -78,6 +89,10 @@ const (
 func c13Agree(st *State, m *c13Model, when string) {
 	verifrt.Sig(when, "window")
 	verifrt.Assert(len(st.blocksRequested) <= c13Window, "C13.window-at-most-10")
+	verifrt.Sig(when, "outstanding")
+	verifrt.Assert(m.outstanding() <= c13Window, "C13.requested-but-unprocessed-at-most-10")
+	verifrt.Sig(when, "processing")
+	verifrt.Assert(st.blockProcessing == m.processing, "C13.model.processing-flag")
 	verifrt.Sig(when, "req-len")
 	verifrt.Assert(len(st.blocksRequested) == len(m.req), "C13.model.requested-length")
 	verifrt.Sig(when, "toreq-len")
@@ -133,7 +148,7 @@ func c13Step(st *State, m *c13Model, step string, freshID int) {
 		cands = append(cands, h)
 	}
 	cands = append(cands, m.last, c13Hash(60000))
-	op := verifrt.Choose(step+".op", 7)
+	op := verifrt.Choose(step+".op", 8)
 	switch op {
 	case 0: // announce: AddBlockRequest(prev, fresh)
 		prev := cands[verifrt.Choose(step+".prev", len(cands))]
@@ -144,7 +159,7 @@ func c13Step(st *State, m *c13Model, step string, freshID int) {
 		if !wantErr {
 			if len(m.toReq) > 0 {
 				m.toReq = append(m.toReq, fresh)
-			} else if len(m.req) >= c13Window || pendingBefore > c13Limit {
+			} else if m.outstanding() >= c13Window || pendingBefore > c13Limit {
 				m.toReq = []bitcoin.Hash32{fresh}
 			} else {
 				m.req = append(m.req, c13Req{hash: fresh})
@@ -184,6 +199,7 @@ func c13Step(st *State, m *c13Model, step string, freshID int) {
 			want = m.req[0].blk
 			m.last = m.req[0].hash
 			m.req = m.req[1:]
+			m.processing = true
 		}
 		got := st.NextBlock()
 		verifrt.Sig("NextBlock", "ret")
@@ -191,7 +207,7 @@ func c13Step(st *State, m *c13Model, step string, freshID int) {
 		c13Agree(st, m, "NextBlock")
 	case 3: // ask for next request
 		var want *bitcoin.Hash32
-		if len(m.toReq) > 0 && len(m.req) < c13Window && m.pending() <= c13Limit {
+		if len(m.toReq) > 0 && m.outstanding() < c13Window && m.pending() <= c13Limit {
 			h := m.toReq[0]
 			want = &h
 			m.toReq = m.toReq[1:]
@@ -251,7 +267,13 @@ func c13Step(st *State, m *c13Model, step string, freshID int) {
 		verifrt.Assert(st.LastHash() == m.tail(), "C13.query.last-hash")
 		verifrt.Sig("query", "counts")
 		verifrt.Assert(st.TotalBlockRequestCount() == len(m.req)+len(m.toReq), "C13.query.count")
+		verifrt.Sig("query", "empty")
+		verifrt.Assert(st.BlockRequestsEmpty() == (len(m.req)+len(m.toReq) == 0 && !m.processing), "C13.query.empty-only-when-nothing-is-requested-or-being-processed")
 		c13Agree(st, m, "queries")
+	case 7: // the block processor finished the block it held (added to the chain or not)
+		m.processing = false
+		st.BlockProcessed()
+		c13Agree(st, m, "BlockProcessed")
 	}
 }
 
@@ -270,6 +292,12 @@ func VerifHarness_C13_step() {
 	st := NewState()
 	m := &c13Model{last: c13Hash(1)}
 	st.lastSavedHash = m.last
+	if verifrt.Choose("processing", 2) == 1 {
+		m.processing, st.blockProcessing = true, true
+		verifrt.Reach("C13.step.pre-state-with-a-block-being-processed")
+	}
+	// representation invariant: at most ten requested-but-unprocessed blocks
+	verifrt.Assume(m.outstanding()+n <= c13Window)
 	pending := 0
 	for i := 0; i < n; i++ {
 		h := c13Hash(2 + i)
@@ -300,7 +328,7 @@ func VerifHarness_C13_step() {
 	// queued-not-requested hashes exist only when the window or the byte
 	// limit stopped requests (reachable-state side condition)
 	if mm > 0 {
-		verifrt.Assume(verifrt.Or(n == c13Window, pending > c13Limit))
+		verifrt.Assume(verifrt.Or(m.outstanding() == c13Window, pending > c13Limit))
 	}
 	for j := 0; j < mm; j++ {
 		h := c13Hash(2 + n + j)
